@@ -2753,3 +2753,273 @@ Proof.
   - rewrite E3, E2', Edels. rewrite <- !app_assoc. reflexivity.
   - rewrite !evs_app, !fold_left_app. exact R3.
 Qed.
+
+Lemma begin_cmd_chan_done : forall st t c st' ev v,
+  begin_cmd st t c = (st', ev, Some v) -> chan_cmd c -> v = RBad.
+Proof.
+  intros st t c st' ev v H Hc. destruct c; cbn in Hc; try contradiction; cbn [begin_cmd] in H; destr_all H; inversion H; reflexivity.
+Qed.
+
+Lemma begin_cmd_done_tret : forall st t c st' ev v,
+  (t < nthr st)%nat -> begin_cmd st t c = (st', ev, Some v) -> tret (thr st' t) = tret (thr st t).
+Proof.
+  intros st t c st' ev v Ht H.
+  assert (Sp : forall s1 p f, thr s1 = thr st -> nthr s1 = nthr st -> tret (thr (spawn_thread s1 t p f) t) = tret (thr st t)).
+  { intros s1 p f E1 E2. cbn. unfold updN, th. destruct (Nat.eqb_spec t (nthr s1)); [lia|]. rewrite E1. reflexivity. }
+  destruct c; cbn [begin_cmd] in H; destr_all H; inversion H; subst; clear H; try reflexivity;
+    repeat match goal with
+           | E : wh_add _ _ = Some _ |- _ => destruct (wh_add_core _ _ _ _ E) as [? [? [? [C1 [C2 _]]]]]; clear E
+           | E : fill_loop _ _ _ = _ |- _ => destruct (fill_loop_pps _ _ _ _ _ E) as [_ C1]; clear E
+           end;
+    try (cbn; rewrite C1; reflexivity); try (apply Sp; auto; fail); try thr_simpl.
+Qed.
+
+Lemma sends_suffix : forall tr m, exists ex, m13_sends (fold_left m13_step tr m) = ex ++ m13_sends m.
+Proof.
+  induction tr as [|[t e] tr IH]; intro m; [exists []; reflexivity|]. cbn [fold_left].
+  destruct (IH (m13_step m (t, e))) as [ex E].
+  assert (S1 : exists ex1, m13_sends (m13_step m (t, e)) = ex1 ++ m13_sends m).
+  { destruct e; try (exists []; reflexivity).
+    - destruct c; try (exists []; reflexivity). eexists [_]. reflexivity.
+    - exists []. unfold m13_step. destruct (get_tid t (b_cur (m13_b m))) as [c|]; [|reflexivity].
+      destruct c; try reflexivity; destruct v; try reflexivity; destruct b; reflexivity. }
+  destruct S1 as [ex1 E1]. exists (ex ++ ex1). rewrite E, E1, app_assoc. reflexivity.
+Qed.
+
+Lemma nodup_suffix : forall tr m, NoDup (map sk (m13_sends (fold_left m13_step tr m))) -> NoDup (map sk (m13_sends m)).
+Proof.
+  intros tr m H. destruct (sends_suffix tr m) as [ex E]. rewrite E, map_app in H.
+  induction (map sk ex) as [|a l IH]; [exact H|]. cbn in H. inversion H; subst. apply IH. assumption.
+Qed.
+
+(** ** one step, a whole run *)
+Record AllInv (st : wstate) : Prop := {
+  a_m : MInv st; a_w : WInv st; a_sl : SlInv st; a_lk : LKInv st; a_ch : ChInv st; a_pq : PqInv st;
+  a_x : XInv st; a_y : YInv st; a_u : UInv st; a_sh : ShInv st }.
+
+Lemma wstep_All : forall st t st' ev, AllInv st -> wstep st t = (st', ev) -> AllInv st'.
+Proof.
+  intros st t st' ev [M W Sl L C Q X Y U Sh] E. constructor.
+  - exact (wstep_inv _ _ _ _ M E).
+  - exact (wstep_ww _ _ _ _ M W E).
+  - exact (wstep_Sl _ _ _ _ M Sl E).
+  - exact (wstep_LK _ _ _ _ M L E).
+  - exact (wstep_Ch _ _ _ _ M W Sl L C E).
+  - exact (wstep_Pq _ _ _ _ M W Sl C Q E).
+  - exact (wstep_X _ _ _ _ M X E).
+  - exact (wstep_Y _ _ _ _ M Y E).
+  - exact (wstep_U _ _ _ _ M U E).
+  - exact (wstep_Sh _ _ _ _ M Q Y Sh E).
+Qed.
+
+Lemma All_init : forall scr, AllInv (winit scr).
+Proof.
+  intro scr. constructor.
+  - apply MInv_init.
+  - apply WInv_init.
+  - apply Sl_init.
+  - exact (reachable_LK (winit scr) (ex_intro _ scr (ex_intro _ [] eq_refl))).
+  - apply Ch_init.
+  - apply Pq_init.
+  - apply X_init.
+  - apply Y_init.
+  - apply U_init.
+  - apply Sh_init.
+Qed.
+
+Lemma settle_B_events : forall st t ev done st' ev', settle st t ev done = (st', ev') -> exists tail, ev' = ev ++ tail.
+Proof.
+  intros st t ev done st' ev' H. unfold settle in H.
+  destruct (norm _ _ _ _ ev) as [[[s1 acc1] k1] ev1] eqn:En. cbn zeta in H.
+  destruct (norm_dels _ _ _ _ _ _ _ _ _ En) as [dels [Ed _]].
+  match type of H with (let '(st2, ev2) := ?E in _) = _ => destruct E as [st2 ev2] eqn:E2 end.
+  assert (X : exists t2, ev2 = ev ++ t2).
+  { destruct done as [v|]; [inversion E2; subst; exists (dels ++ [ERet v]); rewrite app_assoc; reflexivity|].
+    destruct k1; [|inversion E2; subst; eauto].
+    destruct (tcur _); inversion E2; subst; [|eauto]. eexists (dels ++ [_]). rewrite app_assoc. reflexivity. }
+  destruct X as [t2 ->].
+  destruct (tcont (th st2 t)); [|inversion H; subst; eauto].
+  destruct (tscript (th st2 t)); [|inversion H; subst; eauto].
+  destruct (tcur (th st2 t)); [inversion H; subst; eauto|].
+  destruct (tfinal (th st2 t)); inversion H; subst; [|eauto].
+  destruct (is_main t); [eauto|]. exists (t2 ++ [EExit]). rewrite app_assoc. reflexivity.
+Qed.
+
+Theorem wstep_C : forall st ms t st' ev,
+  AllInv st -> BRel st (m13_b ms) -> CRel PNone st ms -> wstep st t = (st', ev) ->
+  NoDup (map sk (m13_sends (fold_left m13_step (evs t ev) ms))) ->
+  CRel PNone st' (fold_left m13_step (evs t ev) ms).
+Proof.
+  intros st ms t st' ev A B R H Nd.
+  destruct A as [[I [P Wf]] W Sl L C Q X Y U S].
+  unfold wstep in H.
+  destruct (enabled st t) eqn:En; cbn [negb] in H; [|inversion H; subst; eapply cr_msame; [exact R|apply m13_plain_fold; cr_pl]].
+  assert (Ht : (t < nthr st)%nat).
+  { unfold enabled in En. apply andb_true_iff in En. destruct En as [En _]. apply Nat.ltb_lt in En. exact En. }
+  assert (It : CInv (core (tick st t))) by (eapply CInv_ceq; [|exact I]; unfold tick; same_core).
+  assert (Pt : pristine (tick st t)) by (unfold tick; prist st t).
+  assert (Wt : wfi (tick st t)) by (eapply wfi_eq; [| | |exact Wf]; reflexivity).
+  assert (Qt : PqInv (tick st t)) by (apply (pq_same st); auto; try reflexivity; intro u; unfold tick; repeat split; thr_simpl).
+  assert (Xt : XInv (tick st t)) by (apply (x_same st); auto; unfold tick; xs).
+  assert (Yt : YInv (tick st t)).
+  { intro u. unfold tick. cbn -[Nat.eqb]. unfold updN, th. destruct (Nat.eqb_spec u t); subst; cbn; apply Y. }
+  assert (Ut : UInv (tick st t)).
+  { intros u Hu. unfold tick. cbn -[Nat.eqb]. unfold updN, th. destruct (Nat.eqb_spec u t); [cbn in Hu; lia|]. apply U. exact Hu. }
+  assert (St : ShInv (tick st t)) by (unfold tick; sh_eq st).
+  assert (Ct : ChInv (tick st t)) by (eapply (ch_eq st); [| | | |exact C]; try reflexivity; unfold tick; thr_simpl).
+  assert (Bt : BRel (tick st t) (m13_b ms)) by (apply (br_same st); auto; intro u; unfold tick; split; thr_simpl).
+  assert (Rt : CRel PNone (tick st t) ms).
+  { apply (cr_steq _ st); auto. intro u. unfold tick. split; [thr_simpl|split; [thr_simpl|intros _; thr_simpl]]. }
+  assert (Htt : (t < nthr (tick st t))%nat) by exact Ht.
+  set (s0 := tick st t) in *. clearbody s0. clear En.
+  destruct (tstarted (th s0 t)) eqn:Es0; cbn [negb] in H.
+  - destruct (tcont (th s0 t)) as [|i r] eqn:Ec.
+    + destruct (tscript (th s0 t)) as [|c0 cs] eqn:Es; [inversion H; subst; eapply cr_msame; [exact R|apply m13_plain_fold; cr_pl]|].
+      match type of H with context [begin_cmd ?S0 t ?cc] =>
+        destruct (begin_cmd S0 t cc) as [[st2 ev0] done] eqn:Eb; set (s1 := S0) in * end.
+      assert (Hcur0 : tcur (thr s0 t) = None).
+      { destruct (tcur (thr s0 t)) eqn:E; auto. exfalso. apply (Yt t); [congruence|exact Ec]. }
+      assert (I1 : CInv (core s1)) by (eapply CInv_ceq; [|exact It]; unfold s1; same_core).
+      assert (P1 : pristine s1) by (unfold s1; prist s0 t).
+      assert (W1 : wfi s1) by (eapply wfi_eq; [| | |exact Wt]; reflexivity).
+      assert (Hc1 : tcont (thr s1 t) = []) by (unfold s1; thr_simpl; exact Ec).
+      assert (Hcur1 : tcur (thr s1 t) = Some c0) by (unfold s1; thr_simpl).
+      assert (Hret1 : tret (thr s1 t) = RUnit) by (unfold s1; thr_simpl).
+      assert (Hs1 : tstarted (thr s1 t) = true) by (unfold s1; thr_simpl; exact Es0).
+      assert (S1 : ShInv s1) by (apply (sh_install s0 s1 t c0 St Ec); auto; unfold s1; thr_simpl).
+      assert (U1 : UInv s1).
+      { intros u Hu. unfold s1. cbn -[Nat.eqb]. unfold updN, th. destruct (Nat.eqb_spec u t); [cbn in Hu; lia|]. apply Ut. exact Hu. }
+      destruct (settle_B_events _ _ _ _ _ _ H) as [tail Et].
+      assert (Hcur1' : tcur (thr s1 t) <> None) by congruence.
+      assert (Q1 : PqInv s1).
+      { unfold th in Ec, Es. apply (pq_idle s0 s1 t [] Qt Ec); try reflexivity.
+        - exact Hc1.
+        - unfold s1. thr_simpl.
+        - unfold s1. thr_simpl.
+        - unfold s1. cbn -[Nat.eqb]. unfold updN, th. rewrite Nat.eqb_refl. cbn. intros _ H0 _.
+          apply (pk s0 Qt t Htt H0). right. rewrite Es. discriminate.
+        - intros j [].
+        - unfold s1. cbn -[Nat.eqb]. unfold updN, th. rewrite Nat.eqb_refl. cbn. apply (pf s0 Qt t). }
+      pose proof (begin_cmd_Pq s1 t c0 st2 ev0 done I1 P1 Q1 Hc1 Htt Hcur1' Eb) as Q2.
+      pose proof (begin_cmd_Sh s1 t c0 st2 ev0 done S1 P1 Htt Hc1 Hcur1 Hret1 Eb) as S2.
+      destruct (begin_cmd_inv s1 t c0 st2 ev0 done I1 P1 W1 Hc1 Htt Eb) as [I2 _].
+      pose proof (begin_B s0 (m13_b ms) t c0 cs st2 ev0 done Bt Pt Htt Hcur0 Ec Eb) as B2.
+      destruct (begin_cmd_sum s1 t c0 st2 ev0 done P1 Htt Eb) as [_ [Ht2 [_ [Hn _]]]].
+      assert (Ht2' : (t < nthr st2)%nat) by (change (nthr s1) with (nthr s0) in Hn; destruct Hn as [Hn|[Hn _]]; lia).
+      rewrite Et in Nd. rewrite evs_app, fold_left_app in Nd.
+      pose proof (nodup_suffix _ _ Nd) as Nd2.
+      change (evs t (ECmd c0 :: ev0)) with ((t, ECmd c0) :: evs t ev0) in Nd2. cbn [fold_left] in Nd2.
+      pose proof (nodup_suffix _ _ Nd2) as Nd1.
+      assert (R1 : CRel (pend_install t c0) s1 (m13_step ms (t, ECmd c0))).
+      { apply (cr_install s0 s1 ms t c0 Rt Hcur0 Ec); auto. unfold s1. thr_simpl. }
+      pose proof (begin_cmd_C s1 _ t c0 st2 ev0 done S1 P1 U1 R1 Htt Hc1 Hcur1 Eb) as R2.
+      destruct (settle_C st2 _ t (ECmd c0 :: ev0) done st' ev (pend_begin t c0 done) S2 I2 R2) as [tail' [Et' Rf]]; auto.
+      * rewrite m13_b_fold. change (evs t (ECmd c0 :: ev0)) with ((t, ECmd c0) :: evs t ev0) in B2. cbn [fold_left] in B2.
+        rewrite m13_b_step. exact B2.
+      * apply (pf st2 Q2 t).
+      * intro D. subst done. left. unfold pend_begin. destruct c0; reflexivity.
+      * intros v D. subst done. split; [rewrite (begin_cmd_done s1 t c0 st2 ev0 v Htt Eb); exact Hc1|].
+        exists c0. split; [rewrite Ht2; exact Hcur1|]. split; [intro Hcc; eapply begin_cmd_chan_done; eauto|]. split; [reflexivity|].
+        rewrite (begin_cmd_done_tret s1 t c0 st2 ev0 v Htt Eb). exact Hret1.
+      * rewrite Et', evs_app, fold_left_app. change (evs t (ECmd c0 :: ev0)) with ((t, ECmd c0) :: evs t ev0). cbn [fold_left]. exact Rf.
+    + destruct (exec_instr s0 t i r) as [st1 ev1] eqn:Ee.
+      destruct (settle_B_events _ _ _ _ _ _ H) as [tail Et].
+      rewrite Et in Nd. rewrite evs_app, fold_left_app in Nd. pose proof (nodup_suffix _ _ Nd) as Nd1.
+      pose proof (nodup_suffix _ _ Nd1) as Nd0.
+      destruct (exec_instr_C s0 ms t i r st1 ev1 St Ct Rt Nd0 Ec Ee) as [p' [R1 Hp]].
+      assert (I1 : CInv (core st1)) by (eapply exec_instr_inv; eauto).
+      pose proof (exec_instr_Sh s0 t i r st1 ev1 St Ec Ee) as S1.
+      pose proof (exec_instr_B s0 (m13_b ms) t i r st1 ev1 Bt Ec Htt Ee) as B1.
+      destruct (exec_instr_tf _ _ _ _ _ _ Ee) as [Hn1 [Hf _]].
+      destruct (settle_C st1 _ t ev1 None st' ev p' S1 I1 R1) as [tail' [Et' Rf]]; auto.
+      * rewrite m13_b_fold. exact B1.
+      * lia.
+      * destruct (Hf t) as [_ [_ [F _]]]. rewrite F. apply (pf s0 Qt t).
+      * intros v D. discriminate D.
+      * rewrite Et', evs_app, fold_left_app. exact Rf.
+  - set (s1 := upd_th s0 t (set_tstarted (th s0 t) true)) in *.
+    destruct (settle_B_events _ _ _ _ _ _ H) as [tail Et].
+    rewrite Et in Nd. rewrite evs_app, fold_left_app in Nd. pose proof (nodup_suffix _ _ Nd) as Nd1.
+    assert (S1 : ShInv s1) by (unfold s1; sh_eq s0).
+    assert (I1 : CInv (core s1)) by (eapply CInv_ceq; [|exact It]; unfold s1; same_core).
+    assert (B1 : BRel s1 (m13_b ms)) by (apply (br_same s0); auto; intro u; unfold s1; split; thr_simpl).
+    assert (R1 : CRel PNone s1 (m13_step ms (t, EStart))).
+    { apply (cr_msame _ _ ms); [|apply m13_plain_step; exact Logic.I]. apply (cr_steq _ s0); auto. intro u. unfold s1. split; [thr_simpl|split; [thr_simpl|intros _; thr_simpl]]. }
+    destruct (settle_C s1 _ t [EStart] None st' ev PNone S1 I1 R1) as [tail' [Et' Rf]]; auto;
+      try (intros v D; discriminate D);
+      try (unfold s1; cbn -[Nat.eqb]; unfold updN, th; rewrite Nat.eqb_refl; cbn; apply (pf s0 Qt t)).
+    rewrite Et'. change (evs t ([EStart] ++ tail')) with ((t, EStart) :: evs t tail'). cbn [fold_left]. exact Rf.
+Qed.
+
+Definition m13_0 : m13 := mkM13 mb0 [] [] [] [] [] [] false.
+
+Lemma C_init : forall scr, CRel PNone (winit scr) m13_0.
+Proof.
+  intro scr. constructor; cbn; intros; try discriminate; try contradiction; try reflexivity; try (constructor; fail).
+  all: try (destruct a1; discriminate).
+Qed.
+
+Theorem wrun_C : forall sched st ms,
+  AllInv st -> BRel st (m13_b ms) -> CRel PNone st ms ->
+  NoDup (map sk (m13_sends (fold_left m13_step (flatten (snd (wrun st sched))) ms))) ->
+  AllInv (fst (wrun st sched)) /\
+  BRel (fst (wrun st sched)) (m13_b (fold_left m13_step (flatten (snd (wrun st sched))) ms)) /\
+  CRel PNone (fst (wrun st sched)) (fold_left m13_step (flatten (snd (wrun st sched))) ms).
+Proof.
+  induction sched as [|t rest IH]; intros st ms A B R Nd; [cbn; auto|].
+  cbn [wrun] in *.
+  destruct (wstep st t) as [st1 ev] eqn:E.
+  destruct (wrun st1 rest) as [st2 tr] eqn:Er. cbn [fst snd] in *.
+  rewrite flatten_cons, fold_left_app in *.
+  pose proof (nodup_suffix _ _ Nd) as Nd1.
+  pose proof (wstep_C st ms t st1 ev A B R E Nd1) as R1.
+  pose proof (wstep_All st t st1 ev A E) as A1.
+  assert (B1 : BRel st1 (m13_b (fold_left m13_step (evs t ev) ms))).
+  { rewrite m13_b_fold. destruct A as [M _ _ _ _ _ X Y _ _]. exact (wstep_B st _ t st1 ev M X Y B E). }
+  specialize (IH st1 _ A1 B1 R1). rewrite Er in IH. cbn [fst snd] in IH. apply IH. exact Nd.
+Qed.
+
+(** the (channel, message) pairs of the sends begun in a trace *)
+Definition send_keys (tr : otrace) : list (Z * Z) :=
+  flat_map (fun te => match snd te with ECmd (CSend c x) => [(c, x)] | _ => [] end) tr.
+
+Lemma sends_keys : forall tr m, map sk (m13_sends (fold_left m13_step tr m)) = rev (send_keys tr) ++ map sk (m13_sends m).
+Proof.
+  induction tr as [|[t e] tr IH]; intro m; [reflexivity|]. cbn [fold_left send_keys flat_map]. fold (send_keys tr). rewrite IH.
+  assert (S1 : map sk (m13_sends (m13_step m (t, e))) = rev (match e with ECmd (CSend c x) => [(c, x)] | _ => [] end) ++ map sk (m13_sends m)).
+  { destruct e; try reflexivity.
+    - destruct c; reflexivity.
+    - unfold m13_step. destruct (get_tid t (b_cur (m13_b m))) as [c|]; [|reflexivity].
+      destruct c; try reflexivity; destruct v; try reflexivity; destruct b; reflexivity. }
+  rewrite S1. cbn [snd]. rewrite rev_app_distr, <- app_assoc. reflexivity.
+Qed.
+
+(** C13, trace form: the channel monitor holds on every run of the model whose send commands carry pairwise
+    distinct (channel, message) pairs (the monitor identifies a message by this pair). *)
+Theorem C13_monitor : forall scr sched,
+  NoDup (send_keys (flatten (wtrace scr sched))) ->
+  C13_ok (flatten (wtrace scr sched)) false = true.
+Proof.
+  intros scr sched Hnd. unfold wtrace in *.
+  assert (Nd : NoDup (map sk (m13_sends (fold_left m13_step (flatten (snd (wrun (winit scr) sched))) m13_0)))).
+  { rewrite sends_keys. cbn. rewrite app_nil_r. apply NoDup_rev. exact Hnd. }
+  destruct (wrun_C sched (winit scr) m13_0 (All_init scr) (mb0_rel scr) (C_init scr) Nd) as [A [B R]].
+  set (st := fst (wrun (winit scr) sched)) in *.
+  set (m := fold_left m13_step (flatten (snd (wrun (winit scr) sched))) m13_0) in *.
+  unfold C13_ok. fold m13_0. fold m. cbn zeta.
+  rewrite (r_bad _ st m R). cbn [negb andb].
+  destruct (mb_quiescent (m13_b m)) eqn:Eq; [|reflexivity]. cbn [negb andb].
+  assert (Rs : reachable st) by (exists scr, sched; reflexivity).
+  destruct A as [[I [P Wf]] _ _ _ C _ X _ _ _].
+  pose proof (mbq_quiescent st _ B X P Eq) as Q.
+  apply forallb_forall. intros [u [c x]] Hin. cbn [snd fst].
+  pose proof (r_ex_acc _ st m R u c x Hin) as Ex.
+  destruct (copen (chs st c)) eqn:Eo.
+  - destruct (chan_not_stranded st c Rs Q Eo) as [Eq0 _].
+    pose proof (r_open _ st m R c Eo) as Er. cbn [pendm] in Er. rewrite app_nil_r, Eq0, app_nil_r in Er.
+    assert (T0 : transit st c = []) by (unfold transit; destruct Q as [_ [Qm _]]; unfold mcont in Qm; rewrite Qm; reflexivity).
+    rewrite T0, app_nil_r in Er.
+    apply orb_true_iff. left. apply mem_pair_In. apply in_fm_fwd. rewrite in_rev, <- fwds_eq, <- Er, accs_eq, <- in_rev.
+    apply in_fm_acc. eauto.
+  - apply orb_true_iff. right. apply (r_begun _ st m R c Ex Eo).
+Qed.
